@@ -28,6 +28,7 @@ func Targets() []*Target {
 			polynomialEvaluatorTarget(),
 		}
 		targets = append(targets, multipartyTargets()...)
+		targets = append(targets, mpSchemeTargets()...)
 	})
 	return targets
 }
